@@ -436,7 +436,8 @@ func main() {
 			cal.Props.SetText(ical.PropVersion, "2.0")
 			cal.Props.SetText(ical.PropProductID, "-//verif//EN")
 			if c.Method {
-				cal.Props.SetText(ical.PropMethod, "PUBLISH")
+				// the property's presence is what counts, not its value (concretised per tag, including an empty one)
+				cal.Props.SetText(ical.PropMethod, map[string]string{"special": "", "prefix": "x-custom"}[*tag]+map[string]string{"": "PUBLISH"}[*tag])
 			}
 			for _, k := range c.Comps {
 				comp := ical.NewComponent(k.Type)
